@@ -218,10 +218,15 @@ def base_from_u128(n, v):
     return "u%d::new(%s as %s)" % (n, v, under(n))
 
 
+BB = "::core::hint::black_box"
+
+
 def base_to_u128(n, x):
+    """widening of a generated function's integer result. The result is materialised (black_box, a const fn) before it is widened: rustc 1.95.0's
+    x86-64 backend was observed to turn `u32 as u128` into a sign extension when the u32 came out of an inlined byte insert (toolchain/zext-miscompile-1.95)"""
     if catalog.is_native(n):
-        return "(%s as u128)" % x
-    return "(%s.value() as u128)" % x
+        return "(%s(%s) as u128)" % (BB, x)
+    return "(%s(%s.value()) as u128)" % (BB, x)
 
 
 def helper_by_name(case, name):
@@ -257,11 +262,11 @@ def conv_out(case, f, x):
     if k == "uint":
         return "Obs::Bits(%s)" % base_to_u128(w, x)
     if k == "sint":
-        return "Obs::Signed(%s as i128)" % x
+        return "Obs::Signed(%s(%s) as i128)" % (BB, x)
     if k == "enum":
         return "Obs::Variant(%s_ord(%s))" % (f["tyref"].lower(), x)
     if k == "optenum":
-        return "match %s { Ok(v) => Obs::Variant(%s_ord(v)), Err(e) => Obs::Err(e as u128) }" % (x, f["tyref"].lower())
+        return "match %s { Ok(v) => Obs::Variant(%s_ord(v)), Err(e) => Obs::Err(%s(e) as u128) }" % (x, f["tyref"].lower(), BB)
     if k == "nested":
         return "Obs::Nested(%s)" % base_to_u128(w, "%s.raw_value()" % x)
     raise ValueError(k)
@@ -533,7 +538,7 @@ def enum_module(case):
         L.append("        fn from_raw(&self, x: u128) -> Obs { let v: %s = %s::new_with_raw_value(%s); Obs::Variant(%s_ord(v)) }" % (name, name, base_from_u128(n, "x"), low))
     else:
         prim = "u8" if n <= 8 else "u16" if n <= 16 else "u32" if n <= 32 else "u64"
-        L.append("        fn from_raw(&self, x: u128) -> Obs { let r: Result<%s, %s> = %s::new_with_raw_value(%s); match r { Ok(v) => Obs::Variant(%s_ord(v)), Err(e) => Obs::Err(e as u128) } }" % (name, prim, name, base_from_u128(n, "x"), low))
+        L.append("        fn from_raw(&self, x: u128) -> Obs { let r: Result<%s, %s> = %s::new_with_raw_value(%s); match r { Ok(v) => Obs::Variant(%s_ord(v)), Err(e) => Obs::Err(::core::hint::black_box(e) as u128) } }" % (name, prim, name, base_from_u128(n, "x"), low))
     L.append("        fn to_raw(&self, ord: u32) -> u128 { let r: u%d = %s_from_ord(ord as u128).raw_value(); %s }" % (n, low, base_to_u128(n, "r")))
     L.append("    }")
     L.append("}")
